@@ -361,6 +361,12 @@ fn shrink_violations(rep: &mut Report, surface: Surface, seed: u64, thorough: bo
 }
 
 pub fn run(p: &Params, rep: &mut Report) {
+    if p.shard == 8 {
+        // depth instead of width: terms nested a few hundred (thousand) levels deep
+        for d in if p.thorough { vec![64u32, 257, 1000, 3000] } else { vec![65u32, 256, 700 + (p.seed as u32 % 7) * 50] } {
+            super::ladder::deep_nesting(rep, "C01", d, p.seed);
+        }
+    }
     if p.shard == 7 {
         // operand and class counts beyond 2^10 (and, for one term, beyond 2^16)
         for n in if p.thorough { vec![1100u32, 2100, 4200] } else { vec![1100u32] } {
